@@ -1,5 +1,5 @@
-(* C06, stream "ledger" — histories of resourceManager.Allocate+Update / Release / pod events /
-   Allocate with give-backs on one node. Wire format: see coq/C06/Codec.v. *)
+(* C06, stream "ledger" — histories of resourceManager.Allocate+Update / Release / informer
+   events through the real podEventHandler / Allocate with give-backs on one node. Wire format: see coq/C06/Codec.v. *)
 From Coq Require Import List ZArith Bool.
 From Verif Require Import Lib.Wire C06.Model C06.Spec C06.Codec.
 Import ListNotations.
@@ -22,9 +22,9 @@ Definition nontrivial_case (inp : list Z) : bool :=
   let '(o, ops, _) := decode_hist inp in
   (3 <=? lenZ ops)
   && existsb (fun x => match x with
-                       | OAlloc rq | OAllocR rq _ _ => r_bindreq rq && (2 <=? r_n rq)
+                       | IOp (OAlloc rq) | IOp (OAllocR rq _ _) => r_bindreq rq && (2 <=? r_n rq)
                        | _ => false end) ops
-  && existsb (fun x => match x with OAlloc _ => false | _ => true end) ops.
+  && existsb (fun x => match x with IOp (OAlloc _) => false | _ => true end) ops.
 
 (* no known finding: the FullPCPUs overshoot was fixed in 43d7136 *)
 Definition finding_sig (inp obs : list Z) : Z := 0.
